@@ -43,6 +43,30 @@ B64_HARNESSES = [
 B64_PROPS = ('C04', 'C12')
 
 
+class _R:
+    def __init__(self, rc, out):
+        self.returncode, self.stdout = rc, out
+
+
+def run_group(cmd, cwd, env, timeout):
+    """subprocess.run with a timeout that also ends the grandchildren (cargo-kani leaves its cbmc running when only it is killed)"""
+    import signal
+    p = subprocess.Popen(cmd, cwd=cwd, env=env, stdout=subprocess.PIPE, stderr=subprocess.STDOUT, text=True, start_new_session=True)
+    try:
+        out, _ = p.communicate(timeout=timeout)
+        return _R(p.returncode, out)
+    except subprocess.TimeoutExpired:
+        try:
+            os.killpg(os.getpgid(p.pid), signal.SIGKILL)
+        except Exception:
+            p.kill()
+        try:
+            p.communicate(timeout=10)
+        except Exception:
+            pass
+        raise
+
+
 def run_b64_conformance(timeout=900):
     return run_rlp_conformance(timeout, harness_file='b64_conformance.rs', harnesses=B64_HARNESSES)
 
@@ -61,7 +85,7 @@ def run_rlp_conformance(timeout=900, harness_file='rlp_conformance.rs', harnesse
             cmd = ['cargo', 'kani', '--harness', h]
             t0 = time.time()
             try:
-                r = subprocess.run(cmd, cwd=d, env=env, stdout=subprocess.PIPE, stderr=subprocess.STDOUT, text=True, timeout=timeout)
+                r = run_group(cmd, cwd=d, env=env, timeout=timeout)
                 txt = r.stdout
             except subprocess.TimeoutExpired:
                 out.append({'harness': h, 'status': 'undecided', 'what': what, 'wall_s': time.time() - t0})
@@ -117,7 +141,7 @@ def run(prop, timeout=600):
             cmd = ['cargo', 'kani'] + flags + ['--harness', h]
             t0 = time.time()
             try:
-                r = subprocess.run(cmd, cwd=d, env=env, stdout=subprocess.PIPE, stderr=subprocess.STDOUT, text=True, timeout=timeout)
+                r = run_group(cmd, cwd=d, env=env, timeout=timeout)
                 txt = r.stdout
             except subprocess.TimeoutExpired:
                 out.append({'harness': h, 'status': 'undecided', 'detail': 'timeout', 'wall_s': time.time() - t0, 'cmd': ' '.join(cmd), 'what': what})
@@ -140,7 +164,7 @@ def run(prop, timeout=600):
             if st == 'fail':
                 # concrete playback: ask Kani for the failing input and keep its unit test text
                 try:
-                    r2 = subprocess.run(cmd + ['-Z', 'concrete-playback', '--concrete-playback=print'], cwd=d, env=env, stdout=subprocess.PIPE, stderr=subprocess.STDOUT, text=True, timeout=timeout)
+                    r2 = run_group(cmd + ['-Z', 'concrete-playback', '--concrete-playback=print'], cwd=d, env=env, timeout=timeout)
                     m2 = re.search(r'(#\[test\].*?\n\}\n)', r2.stdout, re.S)
                     if m2:
                         cex = m2.group(1)
